@@ -660,6 +660,7 @@ var errMultipleParentsFound = errors.New("multiple parents found")
 var errInvalidReferenceType = errors.New("invalid reference type")
 var errGraphNotFound = errors.New("graph not found")
 var errQuadNotFound = errors.New("quad not found")
+var errCyclicReference = errors.New("cyclic reference between nodes")
 
 type refTp struct {
 	tp  nodeType
@@ -937,11 +938,18 @@ func (r *relationship) path(dsIdx datasetIdx, ds *ld.RDFDataset,
 	}
 
 	nextKey := dsIdx
+	visited := map[datasetIdx]struct{}{dsIdx: {}}
 	for {
 		parentIdx, ok := r.parents[nextKey]
 		if !ok {
 			break
 		}
+
+		// a quad that is (transitively) its own parent has no finite path
+		if _, seen := visited[parentIdx]; seen {
+			return k, errCyclicReference
+		}
+		visited[parentIdx] = struct{}{}
 
 		var parent *ld.Quad
 		parent, err = getQuad(ds, parentIdx)
